@@ -59,8 +59,8 @@ Definition dec_step (l : list N) : option step :=
 Definition kind_of (s : step) : skind :=
   match s with
   | SReset _ | SResetRange _ _ _ => KReset
-  | SAcc _ _ (OReadFromFd _ _ _ true) => KFdError
-  | SAcc _ _ (OReadFromFdFault _ _ _) => KFdError
+  | SAcc _ _ (OReadFromFd cnt _ _ true) => KFdError cnt
+  | SAcc _ _ (OReadFromFdFault cnt _ _) => KFdError cnt
   | _ => KWriteLike end.
 
 Fixpoint dec_regions (n : nat) (l : list tok) : option (list region * list tok) :=
